@@ -58,7 +58,7 @@ fn umv_component_bits(rng: &mut Rng, style: u8) -> Vec<(u32, u8)> {
 fn adversarial(rng: &mut Rng, g: &mut DecGen, note: &mut String) -> PicSpec {
     let ptype = if g.has_ref && rng.chance(2, 3) { PType::P } else { PType::I };
     let mut s = gen_picture(rng, &g.cfg, g.fl.clone(), ptype, g.w, g.h, g.tr);
-    let kind = rng.below(12);
+    let kind = rng.below(13);
     match kind {
         0 => {
             *note = "adversarial: more macroblocks than the picture holds".into();
@@ -206,6 +206,22 @@ fn adversarial(rng: &mut Rng, g: &mut DecGen, note: &mut String) -> PicSpec {
                         b.coefs = (0..n).map(|_| Coef { run: *rng.pick(&[0u8, 1, 20, 62, 63]), level: *rng.pick(&[1i16, -1, 3]), esc: Esc::Auto }).collect();
                     }
                 }
+            }
+        }
+        11 => {
+            *note = "adversarial: start code (GOB header, picture header or end-of-sequence) inside the macroblock data".into();
+            let keep = rng.usize(s.mbs.len() + 1);
+            s.mbs.truncate(keep);
+            // optional stuffing to a byte boundary is what a real encoder would insert; leave the phase random
+            s.extra_bits.push((0, rng.below(8) as u8));
+            s.extra_bits.push((1, 17));
+            let gn = *rng.pick(&[0u32, 1, 2, 15, 17, 24, 30, 31]);
+            s.extra_bits.push((gn, 5));
+            // GFID(2) GQUANT(5), then more bits that look like macroblocks
+            s.extra_bits.push((rng.below(4) as u32, 2));
+            s.extra_bits.push((rng.below(32) as u32, 5));
+            for _ in 0..rng.usize(6) {
+                s.extra_bits.push((rng.next_u64() as u32, 32));
             }
         }
         _ => {
